@@ -87,6 +87,11 @@ package mvp6_1
 //@   loop 0: exit executeUnitsIdle(m)
 //@   loop 0: exit cycle >= 1
 //@   loop 1: invariant cycle >= 1 && wired(m)
+//@   -- (C03; F36) several units can request a flush in the same cycle: the OLDEST instruction
+//@   -- decides from where (sequenceID) and to where (pc); a younger, wrong-path request changes nothing
+//@   loop 1: step resp.flush && (!prev(flush) || resp.sequenceID < prev(sequenceID)) ==> sequenceID == resp.sequenceID && pc == resp.pc
+//@   loop 1: step !(resp.flush && (!prev(flush) || resp.sequenceID < prev(sequenceID))) ==> sequenceID == prev(sequenceID) && pc == prev(pc)
+//@   loop 1: step flush == (prev(flush) || resp.flush)
 //@   loop 2: invariant cycle >= 1 && wired(m)
 //@   loop 3: invariant cycle >= 1 && wired(m)
 //@   loop 4: invariant cycle >= 1 && wired(m)
